@@ -11,6 +11,7 @@ import (
 
 	"verifharness/internal/exact"
 	"verifharness/internal/gen"
+	"verifharness/internal/stats"
 )
 
 // Case is one generated input (also the replay format): a box, a geometry of
@@ -719,15 +720,20 @@ func somethingRemains(box orb.Bound, g orb.Geometry, qs []orb.Point, tl tols) (s
 				walk(p)
 			}
 		case orb.LineString:
-			for _, run := range exact.ClipLine(box, v, false).Runs {
+			runs := exact.ClipLine(box, v, false).Runs
+			for _, run := range runs {
 				if !run.Zero && run.Length > 2*tol {
 					sure = true
 				}
 			}
-			// nothing for sure only if the line stays clear of the box by more than rounding
-			pad := orb.Bound{Min: orb.Point{box.Min[0] - 2*tol, box.Min[1] - 2*tol}, Max: orb.Point{box.Max[0] + 2*tol, box.Max[1] + 2*tol}}
-			if len(exact.ClipLine(pad, v, false).Runs) > 0 {
+			if len(runs) > 0 {
 				none = false
+			} else if none {
+				// nothing for sure only if the line stays clear of the box by more than rounding
+				pad := orb.Bound{Min: orb.Point{box.Min[0] - 2*tol, box.Min[1] - 2*tol}, Max: orb.Point{box.Max[0] + 2*tol, box.Max[1] + 2*tol}}
+				if len(exact.ClipLine(pad, v, false).Runs) > 0 {
+					none = false
+				}
 			}
 		case orb.MultiLineString:
 			for _, l := range v {
@@ -735,8 +741,12 @@ func somethingRemains(box orb.Bound, g orb.Geometry, qs []orb.Point, tl tols) (s
 			}
 		case orb.Ring, orb.Polygon, orb.MultiPolygon:
 			none = false // a region can reach into the box between the query points
+			closedAll := allClosed(v)
 			for _, q := range qs {
-				if allClosed(v) && deepInBox(box, q, margin) && distToRings(v, q) > margin && parity(v, q) {
+				if sure || !closedAll {
+					break
+				}
+				if deepInBox(box, q, margin) && distToRings(v, q) > margin && parity(v, q) {
 					sure = true
 				}
 			}
@@ -775,6 +785,9 @@ func checkGeneric(box orb.Bound, g orb.Geometry, qs []orb.Point, tl tols) error 
 	if err := linesAgree(box, g, tl); err != nil {
 		return err
 	}
+	if err := aliasedMembers(box, g); err != nil {
+		return err
+	}
 	sure, none := somethingRemains(box, g, qs, tl)
 	if got == nil && sure {
 		return fmt.Errorf("clip.Geometry(%s) = nil although part of the input lies in the box %v: %s", gen.KindOf(g), box, gen.Canon(g))
@@ -799,8 +812,12 @@ func checkGeneric(box orb.Bound, g orb.Geometry, qs []orb.Point, tl tols) error 
 	// typed wrappers against the same rules
 	switch v := g.(type) {
 	case orb.MultiPoint:
-		if r := clip.MultiPoint(box, append(orb.MultiPoint(nil), v...)); !samePts(r, expectMultiPoint(box, v)) {
+		in := append(orb.MultiPoint(nil), v...)
+		if r := clip.MultiPoint(box, in); !samePts(r, expectMultiPoint(box, v)) {
 			return fmt.Errorf("clip.MultiPoint = %v, want the points inside the box %v", r, expectMultiPoint(box, v))
+		}
+		if !samePts(in, v) { // documented to return a new set; nothing says the argument is scratch space
+			return fmt.Errorf("clip.MultiPoint modified its input: %v, was %v", in, v)
 		}
 	case orb.Polygon:
 		r, w := clip.Polygon(box, gen.DeepCopy(v).(orb.Polygon)), expectPolygon(box, v)
@@ -853,6 +870,73 @@ func checkGeneric(box orb.Bound, g orb.Geometry, qs []orb.Point, tl tols) error 
 		}
 	}
 	return nil
+}
+
+// aliasedMembers: lines (or point lists) of one input that share memory with each other - the
+// same slice twice, windows of one backing array whose capacities overlap - are still separate
+// values: the result must be what it is for independent copies. (Rings are left out: ring
+// clipping is documented to use its input as scratch space, so rings sharing memory may
+// legitimately disturb each other.)
+func aliasedMembers(box orb.Bound, g orb.Geometry) error {
+	var lines []orb.LineString
+	switch v := g.(type) {
+	case orb.MultiLineString:
+		lines = v
+	case orb.Collection:
+		for _, m := range v {
+			if l, ok := m.(orb.LineString); ok {
+				lines = append(lines, l)
+			}
+		}
+	}
+	if len(lines) == 0 || len(lines) > 64 {
+		return nil
+	}
+	build := func(alias bool) (orb.MultiLineString, orb.Collection) {
+		var backing []orb.Point
+		for _, l := range lines {
+			backing = append(backing, l...)
+		}
+		m := orb.MultiLineString{}
+		off := 0
+		for _, l := range lines {
+			if alias {
+				m = append(m, orb.LineString(backing[off:off+len(l)])) // capacity runs on into the next lines
+			} else {
+				m = append(m, append(orb.LineString{}, l...))
+			}
+			off += len(l)
+		}
+		// the first line once more: the same slice when aliasing, a copy otherwise
+		if alias {
+			m = append(m, m[0])
+		} else {
+			m = append(m, append(orb.LineString{}, lines[0]...))
+		}
+		c := orb.Collection{}
+		for _, l := range m {
+			c = append(c, l)
+		}
+		return m, c
+	}
+	am, ac := build(true)
+	im, ic := build(false)
+	if a, b := clip.MultiLineString(box, am), clip.MultiLineString(box, im); !sameGeom(a, b) {
+		return fmt.Errorf("clip.MultiLineString of lines sharing one backing array gives %s, independent copies give %s", gen.Canon(a), gen.Canon(b))
+	}
+	am, ac = build(true)
+	if a, b := clip.Geometry(box, am), clip.Geometry(box, im); !sameGeom(a, b) {
+		return fmt.Errorf("clip.Geometry of a MultiLineString whose lines share memory gives %s, independent copies give %s", gen.Canon(a), gen.Canon(b))
+	}
+	if a, b := clip.Geometry(box, ac), clip.Geometry(box, ic); !sameGeom(a, b) {
+		return fmt.Errorf("clip.Geometry of a Collection whose lines share memory gives %s, independent copies give %s", gen.Canon(a), gen.Canon(b))
+	}
+	return nil
+}
+
+func sameGeom(a, b orb.Geometry) bool {
+	ok, _ := gen.SameBits(a, b)
+	return ok && (a == nil) == (b == nil)
 }
 
 // linesAgree: clip.LineString is used as a primitive of the expectation, so it
@@ -946,29 +1030,34 @@ func scribble(s []orb.Point) {
 	}
 }
 
-// independent: what clip.Geometry returns is a value of its own. The same call
-// on a fresh copy of the input gives the same result; overwriting one ring /
-// line / point list of that second result (and the spare capacity behind it)
-// changes neither its siblings nor the first result; a third call still gives
-// the same result. (The INPUT may be used as scratch space by the ring
-// functions; that is documented and not looked at here.)
+// independent: the same call on a fresh copy of the input gives the same result, and after the
+// caller has overwritten every part of that second result (and the spare capacity behind it) a
+// third call still gives the same result. Whether parts of one result or results of different
+// calls share memory is layout, which neither the property nor the documentation speak about:
+// counted as a layout note, never failed. (The INPUT may be used as scratch space; documented.)
 func independent(box orb.Bound, g orb.Geometry, first orb.Geometry) error {
 	snap := gen.DeepCopy(first)
 	second := clip.Geometry(box, gen.DeepCopy(g))
 	if ok, why := gen.SameBits(second, snap); !ok || (second == nil) != (snap == nil) {
 		return fmt.Errorf("clip.Geometry on a fresh copy of the input gives %s, before it gave %s: %s", gen.Canon(second), gen.Canon(snap), why)
 	}
+	if ok, why := gen.SameBits(first, snap); !ok { // no caller action in between: a returned value changed under the caller's hands
+		return fmt.Errorf("a later call of clip.Geometry changed the result returned earlier: %s", why)
+	}
 	ls, ss := leaves(second), leaves(snap)
-	for k := range ls {
-		scribble(ls[k])
-		for j := k + 1; j < len(ls); j++ {
+	for parity := 0; parity < 2; parity++ { // even parts first, then odd: linear in the output
+		for k := parity; k < len(ls); k += 2 {
+			scribble(ls[k])
+		}
+		for j := 1 - parity; parity == 0 && j < len(ls); j += 2 {
 			if !samePts(ls[j], ss[j]) {
-				return fmt.Errorf("overwriting part %d of the result of clip.Geometry(%s) changed its sibling part %d: %v, was %v", k, gen.KindOf(g), j, ls[j], ss[j])
+				stats.Class("layout-note: parts of one result share memory")
+				break
 			}
 		}
-		if ok, why := gen.SameBits(first, snap); !ok {
-			return fmt.Errorf("overwriting part %d of a later result changed the earlier result of clip.Geometry(%s): %s", k, gen.KindOf(g), why)
-		}
+	}
+	if ok, _ := gen.SameBits(first, snap); !ok {
+		stats.Class("layout-note: results of two calls share memory")
 	}
 	third := clip.Geometry(box, gen.DeepCopy(g))
 	if ok, why := gen.SameBits(third, snap); !ok || (third == nil) != (snap == nil) {
